@@ -72,7 +72,9 @@ class SegmentHeader(object):
         """
         Return the total length of the segment, including the CRC.
         """
-        hl = SegmentCodec.UNCOMPRESSED_HEADER_LENGTH if self.uncompressed_payload_length < 1 \
+        # decode_header() reports -1 when compression is not in use; with compression a segment
+        # the sender left uncompressed has an uncompressed length of 0 but still the longer header
+        hl = SegmentCodec.UNCOMPRESSED_HEADER_LENGTH if self.uncompressed_payload_length < 0 \
             else SegmentCodec.COMPRESSED_HEADER_LENGTH
         return hl + CRC24_LENGTH + self.payload_length + CRC32_LENGTH
 
